@@ -46,6 +46,13 @@ func (g *gen) emit(format string, a ...interface{}) {
 	g.n++
 }
 func (g *gen) thorough() bool { return g.tier == "thorough" }
+func (g *gen) pickInts(q, t []int) []int {
+	if g.thorough() {
+		return t
+	}
+	return q
+}
+
 func (g *gen) pick(q, t int) int {
 	if g.thorough() {
 		return t
